@@ -135,3 +135,6 @@ package annotations
 //@ loop 0 invariant forall(k, 0, _n, holder.nonAttributeComments[k].Index <= k && freeComments[k] == holder.nonAttributeComments[k].Value)
 //@ loop 1 invariant 0 <= takeUntil && takeUntil <= len(freeComments) && i == takeUntil && forall(k, takeUntil, len(freeComments), freeComments[k] == "")
 //@ loop 1 decreases i
+
+//@ func AnnotationHolder.Attributes props C10,C16,C14
+//@ ensures fresh(result) && len(result) == len(holder.attributes) && forall(i, 0, len(result), result[i] == holder.attributes[i])
